@@ -129,7 +129,7 @@ func genLexeme(c *Ctx, kind string) lexeme {
 		}
 		return lexeme{sb.String(), cl}
 	case 6: // comment
-		body := []rune("ab 1*<=é世'")
+		body := []rune("ab 1*<=é世'/")
 		var sb strings.Builder
 		if expr {
 			sb.WriteString("/*")
